@@ -537,8 +537,27 @@ def deferred_frame_size(ctx):
                             f'later shift the slots', f.file, c.lineno)
     # temporaries get unique names
     gl = repo.func('qbee.qvm_codegen', 'QvmCodeGen.get_label')
-    ok = 'self.label_counter += 1' in unparse(gl.node) and \
-        "f'_{name}_{self.label_counter}'" in unparse(gl.node)
+    # structural: the label is an f-string that starts with '_' (users
+    # cannot spell it) and contains a value that is fresh on every call --
+    # an attribute the function increments, or next(<counter>)
+    ok = False
+    bumped = {dotted(x.target) for x in ast.walk(gl.node)
+              if isinstance(x, ast.AugAssign) and
+              isinstance(x.op, ast.Add)}
+    for js in ast.walk(gl.node):
+        if not isinstance(js, ast.JoinedStr) or not js.values:
+            continue
+        first = js.values[0]
+        if not (isinstance(first, ast.Constant) and
+                str(first.value).startswith('_')):
+            continue
+        for fv in js.values:
+            if isinstance(fv, ast.FormattedValue):
+                v = fv.value
+                if isinstance(v, ast.Call) and dotted(v.func) == 'next':
+                    ok = True
+                if dotted(v) in bumped:
+                    ok = True
     ctx.instance(rule, f'{gl.file}:QvmCodeGen.get_label')
     if not ok:
         ctx.finding(rule, f'{gl.file}:QvmCodeGen.get_label',
